@@ -111,6 +111,10 @@ def emit(out: R.Outcome, write=True):
         st = out.selftest
         print(f"  selftest: variants={st.get('variants', 0)} caught={st.get('caught', 0)} "
               f"twins_silent={st.get('twins_silent', 0)} skipped={st.get('skipped', 0)} failures={len(st.get('failures', []))}")
+        sx = st.get("stored_twins") or {}
+        if sx.get("total"):
+            print(f"  stored refactorings (twins/): total={sx['total']} silent={sx['silent']} skipped={sx['skipped']} "
+                  f"expected-undecided={len(sx.get('expected_undecided', []))}")
     print(f"  result: exit {out.exit_code} ({'PASS' if out.exit_code == 0 else 'VIOLATION' if out.exit_code == 1 else 'ANALYSIS-ERROR'})"
           f" in {out.wall_s:.2f}s")
 
